@@ -12,10 +12,10 @@ PLAN = dict(
          "hostile: hand-made invalid inputs by family; envelope: enveloped-key round trips, reference-built envelopes, mutants. "
          "distinct = distinct class keys (configuration | curve / length class / content / key kind / k kind, resp. serialisation, "
          "chain start, family); the empty-message cases are trivial",
-    jobs=both("c07.roundtrip", _CFG, shards=(3, 12), floor=400)
+    jobs=both("c07.roundtrip", _CFG + ["ia32"], shards=(3, 12), floor=400)
     + both("c07.legacy", ["avx2", "purego"], shards=(2, 8), floor=200)
     + both("c07.tamper", _CFG, shards=(3, 12), floor=60)
-    + both("c07.convert", _CFG, shards=(2, 8), floor=100)
+    + both("c07.convert", _CFG + ["ia32"], shards=(2, 8), floor=100)
     + both("c07.hostile", _CFG, shards=(1, 4), floor=20)
     + both("c07.envelope", ["avx2", "noadx", "purego"], shards=(1, 4), floor=10),
     assumptions=[
